@@ -18,13 +18,13 @@ ASSUMPTIONS = ["the reference thumbprint is anchored on RFC 7638 3.1 and RFC 803
                "another digest is selected by subclassing the key class and setting thumbprint_digest_method"]
 
 
-def key_alphabet():
+def key_alphabet(n256=None, nother=None):
     t = config.thorough()
     keys = []
     for n, kind in ((1, "hash"), (16, "hash"), (16, "zero"), (32, "hash"), (65, "hash")):
         keys.append((f"oct-{n}-{kind}", A.oct_jwk(n, kind)))
     for crv in A.EC_CURVES:
-        n = {"P-256": 4096 if t else 300}.get(crv, 1024 if t else 40)
+        n = {"P-256": n256 or (4096 if t else 300)}.get(crv, nother or (1024 if t else 40))
         ds = list(range(1, n + 1))
         for which in ("x", "y"):
             d = A.find_leading_zero_ec(crv, which, 8000 if t else 1500)
